@@ -59,7 +59,19 @@ type concCase struct {
 	FlushDelayUs int `json:"flush_delay_us,omitempty"`
 	// ReadBlockUs (serial kinds): a Read on the port blocks this long while no reply byte is readable (default 300 us)
 	ReadBlockUs int `json:"read_block_us,omitempty"`
+	// Hooks: logging hooks are installed whose methods touch a plain field without any lock (a logger that is not safe for
+	// concurrent use); CountingParser (network kinds): the client is built with NewClient and a response parser that does the same.
+	// Request calls are carried out one at a time, so neither may ever run for two calls at once (race detector).
+	Hooks          bool `json:"hooks,omitempty"`
+	CountingParser bool `json:"counting_parser,omitempty"`
 }
+
+// racyHooks is a ClientHooks implementation that is deliberately not safe for concurrent use.
+type racyHooks struct{ n int }
+
+func (h *racyHooks) BeforeWrite(b []byte)                   { h.n += len(b) }
+func (h *racyHooks) AfterEachRead(b []byte, n int, e error) { h.n += n }
+func (h *racyHooks) BeforeParse(b []byte)                   { h.n += len(b) }
 
 func framingOf(kind string) spec.Framing {
 	if kind == "tcp" {
@@ -158,16 +170,36 @@ func runConc(c concCase) harness.Result {
 			port = serialPortFlusher{sp}
 			mon.FlushDelay = time.Duration(c.FlushDelayUs) * time.Microsecond
 		}
-		sc := modbus.NewSerialClient(port, modbus.WithSerialReadTimeout(2*time.Second))
+		opts := []modbus.SerialClientOptionFunc{modbus.WithSerialReadTimeout(2 * time.Second)}
+		if c.Hooks {
+			opts = append(opts, modbus.WithSerialHooks(&racyHooks{}))
+		}
+		sc := modbus.NewSerialClient(port, opts...)
 		do, closeFn = sc.Do, sc.Close
 		connectFn = func() error { return nil }
 	} else {
 		conf := modbus.ClientConfig{ReadTimeout: 2 * time.Second, WriteTimeout: time.Second,
 			DialContextFunc: func(ctx context.Context, address string) (net.Conn, error) { return mon.NewConn(), nil }}
+		if c.Hooks {
+			conf.Hooks = &racyHooks{}
+		}
 		var cl *modbus.Client
-		if c.Kind == "tcp" {
+		switch {
+		case c.CountingParser:
+			parsed := 0
+			inner := packet.ParseTCPResponse
+			conf.AsProtocolErrorFunc = packet.AsTCPErrorPacket
+			if c.Kind != "tcp" {
+				inner, conf.AsProtocolErrorFunc = packet.ParseRTUResponseWithCRC, packet.AsRTUErrorPacket
+			}
+			conf.ParseResponseFunc = func(d []byte) (packet.Response, error) {
+				parsed += len(d) // unsynchronised on purpose
+				return inner(d)
+			}
+			cl = modbus.NewClient(conf)
+		case c.Kind == "tcp":
 			cl = modbus.NewTCPClientWithConfig(conf)
-		} else {
+		default:
 			cl = modbus.NewRTUClientWithConfig(conf)
 		}
 		if err := cl.Connect(context.Background(), "arrival:1"); err != nil {
@@ -405,6 +437,8 @@ func genConc(t *rapid.T) concCase {
 		}
 		c.Workers = append(c.Workers, calls)
 	}
+	c.Hooks = rapid.IntRange(0, 2).Draw(t, "hooks") == 0
+	c.CountingParser = !isSerial(c.Kind) && rapid.IntRange(0, 3).Draw(t, "counting_parser") == 0
 	if isSerial(c.Kind) {
 		c.ReadBlockUs = rapid.SampledFrom([]int{0, 3000, 15000}).Draw(t, "read_block")
 	}
